@@ -460,7 +460,7 @@ def close_reason_clamp(prog, rep):
         lim = prog.constv(mod + "::CTRLMSG_CLOSE_REASON_LENGTH")
         found = []
         for bi, t in b.calls():
-            if (t.get("callee") or "") in ("std::cmp::min",):
+            if (t.get("callee") or "") in ("std::cmp::min", "std::cmp::Ord::min") or (t.get("callee") or "").endswith("as std::cmp::Ord>::min"):
                 e = ir.call_expr(bi, t)
                 ks = [_ceval(a) for a in e[2]]
                 ks = [k for k in ks if k is not None]
